@@ -16,7 +16,9 @@ REGISTRY = {
             'parseEnd_serializeEnd, parse_serialize (parse(serialize(a)) = a for single chains; stated for any per-modification choice of the + '
             'spelling, include_plus False/True are instances), parse_any_section_order (leading sections in any order), serialize_fixpoint, '
             'parse_serialize_multi_partial (any number of chains joined by +), parse_joined (the parser reads any mix of + and //), '
-            'int_value_roundtrip; parse_serialize_crosslink_false is the decide-checked counter-example for the known finding '
+            'int_value_roundtrip; parse_render (parse(render t) = denote t for every well-formed surface-syntax tree of the documented grammar, '
+            'any spelling of every modification); accepted_roundtrip / accepted_serialize_fixpoint for every accepted grammatical string; '
+            'parse_serializeMultiFixed (mixed +/// relative to the corrected joiner constant); parse_serialize_crosslink_false is the decide-checked counter-example for the known finding '
             '(serializer writes two backslashes for //). The model is tied to /repo by differential correspondence on grammar-derived '
             'strings (all spelling families, 1-3 chains), test-file strings and mutants; denotation / round-trip oracles run on the real code',
     'note': 'trusted: Lean kernel, axioms propext/Classical.choice/Quot.sound, the correspondence harness, the reading of canon as the image '
@@ -327,7 +329,7 @@ def run(chk):
                 'list / the string has a section character; distinct = distinct protocol line or string')
     if not quick:
         chk.leanchecker(['PeptVerif.Props.C01', 'PeptVerif.Lemmas.ParserSurface', 'PeptVerif.Lemmas.ParserChain',
-                         'PeptVerif.Lemmas.ParserMiddle', 'PeptVerif.Lemmas.ParserRoundTrip', 'PeptVerif.Lemmas.ParserTotal',
+                         'PeptVerif.Lemmas.ParserAst', 'PeptVerif.Lemmas.ParserMiddle', 'PeptVerif.Lemmas.ParserRoundTrip', 'PeptVerif.Lemmas.ParserTotal',
                          'PeptVerif.Spec.ProForma', 'PeptVerif.Model.Serialize', 'PeptVerif.Model.Parser', 'PeptVerif.Model.ModText'])
     return chk.finish(classify)
 
